@@ -75,7 +75,7 @@ pub fn serialize_root(
     if root.guid.is_empty() {
         Error::invalid("Empty file GUID is not allowed")?
     }
-    xml += &format!("<guid type=\"String\"><![CDATA[{}]]></guid>\n", root.guid);
+    xml += &xml::gen_string("guid", &root.guid);
     xml += &format!(
         "<versionMajor type=\"Integer\">{}</versionMajor>\n",
         root.major_version
@@ -85,12 +85,10 @@ pub fn serialize_root(
         root.minor_version
     );
     if let Some(cm) = &root.coordinate_metadata {
-        xml +=
-            &format!("<coordinateMetadata type=\"String\"><![CDATA[{cm}]]></coordinateMetadata>\n");
+        xml += &xml::gen_string("coordinateMetadata", cm);
     }
     if let Some(lv) = &root.library_version {
-        xml +=
-            &format!("<e57LibraryVersion type=\"String\"><![CDATA[{lv}]]></e57LibraryVersion>\n");
+        xml += &xml::gen_string("e57LibraryVersion", lv);
     }
     if let Some(dt) = &root.creation {
         xml += &dt.xml_string("creationDateTime");
